@@ -220,3 +220,7 @@ mod test {
         assert_matches!(status, Err(_));
     }
 }
+
+// verification hook: harness text lives outside the repository (see MANIFEST.hooks)
+#[cfg(any(kani, sudachi_verif))]
+include!(concat!(env!("SUDACHI_VERIF_DIR"), "/dic__build__primitives.rs"));
